@@ -212,6 +212,7 @@ def run(tier, seed):
     runner.run_generated(rep, gen(tier), check_case, n, runner.tier_workers(tier),
                          shrink_s=20 if tier == 'quick' else 120)
     std.run_named(rep, gmsg.same_shape_other_bitmap_cases(), check_case, 'same descriptors, other bitmap', 'same_descriptors_other_bitmap')
+    std.run_named(rep, gmsg.unclosed_scope_cases(), check_case, 'template ends inside an operator scope', 'template_ends_inside_an_operator_scope')
     # templates whose section 3 lists no operator at all: the operators sit inside Table D sequences
     so = gen_opts_opseq(tier)
     runner.run_generated(rep, lambda ch: gmsg.gen_opseq_case(ch, so), check_case, 500 if tier == 'quick' else 20000,
